@@ -94,13 +94,15 @@ def dft2(f, alpha, shape=None, shift=(0, 0), offset=(0, 0), unitary=True, out=No
 
     E1, E2 = _dft2_matrices(m, n, M, N, alpha_row, alpha_col, shift_row, shift_col,
                             offset_row, offset_col)
-    if out is None or (out.flags.c_contiguous and out.dtype == np.complex128):
-        F = np.dot(E1.dot(f), E2, out=out)
+    E1f = E1.dot(f)
+    if out is None or (out.flags.carray and out.dtype == np.result_type(E1f.dtype, E2.dtype)):
+        F = np.dot(E1f, E2, out=out)
     else:
-        # np.dot only writes into C-contiguous arrays of its own result type;
-        # any other buffer (a view into a larger array, Fortran order) is
-        # filled by assignment
-        out[...] = np.dot(E1.dot(f), E2)
+        # np.dot only writes into aligned C-contiguous arrays of its own result
+        # type; any other buffer (a view into a larger array, Fortran order,
+        # unaligned, another precision than the product) is filled by
+        # assignment
+        out[...] = np.dot(E1f, E2)
         F = out
 
     # now calculate the answer, without reallocating memory
